@@ -176,7 +176,11 @@ def models(tier):
     return [Model("MC_Kemeny", "MC_Kemeny_3.cfg" if tier == "quick" else "MC_Kemeny_3b.cfg",
                   "score definition: linear in the penalties (Score = Counts . penalties), equals the sum read "
                   "off the cost table, mirror identities, DP optimum = brute-force optimum; all datasets of the "
-                  "grid x sampled valid schemes")]
+                  "grid x sampled valid schemes"),
+            Model("MC_KemenyAlgo", "MC_KemenyAlgo_4.cfg" if tier == "quick" else "MC_KemenyAlgo_5.cfg",
+                  "theorem AlgoIsDef: the O(n log n) computation of the pair counters (prefix sums, runs, counting merge "
+                  "sort; transcribed in KemenyAlgo.tla) equals the definition for every candidate and every input "
+                  "ranking over subsets of the elements", timeout=3000)]
 
 
 def stages(tier, rng, only=None):
